@@ -37,6 +37,10 @@ pub fn group_digests(mut digests: Vec<Digest>) -> Vec<DigestGroup> {
             .cmp(&b.position)
             .then(a.decoy.cmp(&b.decoy))
             .then(a.sequence.cmp(&b.sequence))
+            // tie-break so that the group's reference digest (whose `semi_enzymatic` and
+            // `missed_cleavages` are reported) does not depend on FASTA record order
+            .then(a.semi_enzymatic.cmp(&b.semi_enzymatic))
+            .then(a.missed_cleavages.cmp(&b.missed_cleavages))
     });
     let mut curr_group = DigestGroup {
         reference: digests[0].clone(),
